@@ -93,7 +93,11 @@ def impl_case(c):
                                for m in mans],
                     'starts': {n: [int(x) for x in sw.getLayout(n).starts] for n in sw._handlers},
                     'shape': {n: [int(x) for x in sw.getLayout(n).shape] for n in sw._handlers},
-                    'bs': int(sw.bufferSize), 'wrank': int(comm.Get_rank()), 'largest': int(sw._largestLayoutManager)}
+                    'bs': int(sw.bufferSize), 'wrank': int(comm.Get_rank()), 'largest': int(sw._largestLayoutManager),
+                    # what the constructor's memory computation saw: the handlers' sizes and the enumerated cross-handler pairs
+                    'hbs': [int(m.bufferSize) for m in mans],
+                    'cpairs': [(n1, n2) for k1, n1 in enumerate(sw._layouts) for n2 in sw._layouts[:k1]
+                               if sw._handlers[n1] != sw._handlers[n2] and sw._compatibleLayout(n1, n2)]}
             bs = int(sw.bufferSize)
             cur = start
             src = np.full(bs, -7, dtype=dtype)
@@ -493,6 +497,32 @@ def run():
                               % (layouts, nprocs, got, m),
                               {'kind': 'correspondence', 'theorem': 'sw_ctor (SwapperCtor.v) / c03_ctor_axes',
                                'case': [N, layouts, nprocs, c[3], [], c[5], c[6]]}, no_input=True)
+    # the constructor's memory computation (model sw_bufsize: handler sizes + enumerated pairs) on every world rank
+    blines, bkeys = [], []
+    for ci, (c, r) in enumerate(zip(cases, impl)):
+        if r[0] != 'ok':
+            continue
+        N, layouts = c[0], c[1]
+        lay = {n: l for h in layouts for n, l in h.items()}
+        res = r[1]
+        info = res[0]
+        prs = ' / '.join('%s ~ %s' % (node_str(info, lay, a), node_str(info, lay, b)) for (a, b) in info['cpairs'])
+        for w in range(len(res)):
+            blines.append('swbuf %s | %s | %d | %s | %s' % (' '.join(map(str, N)), ' '.join(map(str, info['topo'])), w,
+                                                          ' '.join(map(str, res[w]['hbs'])), prs))
+            bkeys.append((ci, w))
+    for (ci, w), m in zip(bkeys, core.model_parallel(blines)):
+        chk.cov['certificates_checked'] += 1
+        got = str(impl[ci][1][w]['bs'])
+        if m != got:
+            chk.cov['disagreements_checked'] += 1
+            c = cases[ci]
+            chk.violation('layout.LayoutSwapper.__init__:buffer-size-differs-from-sw_bufsize',
+                          'N=%r layouts=%r nprocs=%r: world rank %d has bufferSize %s, the model of the memory computation '
+                          '(sw_bufsize over handler sizes %r and pairs %r) gives %s'
+                          % (c[0], c[1], c[2], w, got, impl[ci][1][w]['hbs'], impl[ci][1][0]['cpairs'], m),
+                          {'kind': 'correspondence', 'theorem': 'sw_bufsize / c03_ctor_reserves_pB',
+                           'case': [c[0], c[1], c[2], c[3], [], c[5], c[6]]}, no_input=True)
     # whole-memory model: complete source / dest / buf arrays of every world rank after the transpose (frame theorems
     # c03_step_frame / c03_route_frame) and the certificate that every step stays inside each rank's bufferSize
     flines, fkeys, eok_lines, eok_keys = [], [], [], []
@@ -725,7 +755,9 @@ def run():
                                  'recovered from the implementation\'s communicators are validated by sw_step_wf_b / sw_int_wf_b on every step of every route taken',
                                  'connectivity of the layout graph / route construction (_makeConnectionMap) is C06\'s subject; routes are certificates here',
                                  'that _compatibleLayout / getAxes imply sw_step_wf_b is checked per route (certificate), not proved',
-                                 'that the extent of every step is at most the bufferSize of the rank is checked per route (sw_m_route_ok with E = bufferSize), not proved',
+                                 'extent <= bufferSize: proved for gather / scatter steps against the constructor model sw_bufsize (c03_gather_scatter_within_pB, '
+                                 'c03_ctor_reserves_pB, c03_bufsize_ge_pairs; sw_bufsize = _buffer_size compared on every rank) and for handler swaps at handler level (C01/C02); '
+                                 'for handler-internal and same-distribution steps of a sub-handler inside the swapper it is checked per route (sw_m_route_ok with E = bufferSize)',
                                  'process counts larger than the extent they distribute (empty blocks) are not generated'])
 
 
